@@ -130,6 +130,74 @@ theorem tidemanTier_perm (smith : Bool) : ∀ (f : Nat) (rv₁ rv₂ : Profile),
     · rw [if_neg hE, if_neg hE]
       exact tierSel_perm smith f ih hr (smithSchwartz_perm (r2c_perm hr) (nodup_keys_r2c rv₁) smith)
 
+/-- `run_tier` as a whole (with the lone-candidate shortcut of fix bddde61) -/
+theorem tidemanRunTier_perm (smith : Bool) (f : Nat) (rv₁ rv₂ : Profile) (hr : rv₁.Perm rv₂) :
+    ExceptEquiv (fun s₁ s₂ => SlotsEquiv [s₁] [s₂]) (tidemanRunTier smith f rv₁) (tidemanRunTier smith f rv₂) := by
+  have hA := allRanked_perm hr
+  by_cases hl : ∃ c, allRankedCandidates rv₁ = [c]
+  · obtain ⟨c, hc⟩ := hl
+    have hc2 := (lone_of_perm hA c).mp hc
+    unfold tidemanRunTier
+    rw [hc, hc2]
+    exact slotsEquiv_single_cand c
+  · have h1 : ∀ c, allRankedCandidates rv₁ ≠ [c] := fun c e => hl ⟨c, e⟩
+    have h2 : ∀ c, allRankedCandidates rv₂ ≠ [c] := fun c e => hl ⟨c, (lone_of_perm hA c).mpr e⟩
+    rw [tidemanRunTier_of_not_lone h1, tidemanRunTier_of_not_lone h2]
+    exact tidemanTier_perm smith f rv₁ rv₂ hr
+
+theorem eraseCand_eq_erase (l : List Cand) (c : Cand) : eraseCand l c = l.erase c := by
+  induction l with
+  | nil => rfl
+  | cons x xs ih =>
+    unfold eraseCand
+    rw [List.erase_cons]
+    by_cases h : x = c
+    · simp [h]
+    · have : (x == c) = false := by simpa using h
+      rw [if_neg h, this, ih]; rfl
+
+/-- the seat loop of the multi-seat evaluator: tier profiles and eligible lists permuted, everything else equal -/
+theorem tidemanLoop_perm (smith : Bool) (tf : Nat) : ∀ (f : Nat) (t₁ t₂ : Profile), t₁.Perm t₂ →
+    ∀ (el₁ el₂ : List Cand), el₁.Perm el₂ → ∀ (acc : List Slot) (n : Nat),
+      tidemanLoop smith tf f t₁ el₁ acc n = tidemanLoop smith tf f t₂ el₂ acc n := by
+  intro f
+  induction f with
+  | zero => intro _ _ _ _ _ _ _ _; rfl
+  | succ f ih =>
+    intro t₁ t₂ ht el₁ el₂ hel acc n
+    unfold tidemanLoop
+    have hr := tidemanRunTier_perm smith tf t₁ t₂ ht
+    cases h1 : tidemanRunTier smith tf t₁ with
+    | error e₁ =>
+      cases h2 : tidemanRunTier smith tf t₂ with
+      | error e₂ => rw [h1, h2] at hr; have : e₁ = e₂ := hr; rw [this]
+      | ok s₂ => rw [h1, h2] at hr; exact hr.elim
+    | ok s₁ =>
+      cases h2 : tidemanRunTier smith tf t₂ with
+      | error e₂ => rw [h1, h2] at hr; exact hr.elim
+      | ok s₂ =>
+        rw [h1, h2] at hr
+        rcases slotsEquiv_singleton hr with ⟨c, rfl, rfl⟩ | ⟨T₁, T₂, rfl, rfl, _⟩
+        · simp only
+          have hcont : el₁.contains c = el₂.contains c := by
+            rw [Bool.eq_iff_iff, List.contains_iff_mem, List.contains_iff_mem, hel.mem_iff]
+          have her : (eraseCand el₁ c).Perm (eraseCand el₂ c) := by
+            rw [eraseCand_eq_erase, eraseCand_eq_erase]; exact hel.erase c
+          have hemp : (eraseCand el₁ c).isEmpty = (eraseCand el₂ c).isEmpty := by
+            cases h3 : eraseCand el₁ c with
+            | nil => rw [h3] at her; rw [her.nil_eq]
+            | cons a l =>
+              cases h4 : eraseCand el₂ c with
+              | nil => rw [h3, h4] at her; exact absurd her.eq_nil (by simp)
+              | cons b l' => rfl
+          rw [hcont, hemp]
+          split
+          · rfl
+          · split
+            · rfl
+            · exact ih _ _ (subsetProfile_perm ht (fun x => her.mem_iff)) _ _ her _ _
+        · rfl
+
 end VL.Perm.Hyb
 
 namespace VL.Perm
@@ -140,20 +208,20 @@ open VL VL.Condorcet VL.C10
 theorem tideman_perm (smith : Bool) {p₁ p₂ : Profile} (h : p₁.Perm p₂) : tideman smith p₁ = tideman smith p₂ := by
   unfold tideman
   rw [(Hyb.allRanked_perm h).length_eq]
-  have ht := Hyb.tidemanTier_perm smith ((allRankedCandidates p₂).length + 3) p₁ p₂ h
+  have ht := Hyb.tidemanRunTier_perm smith ((allRankedCandidates p₂).length + 3) p₁ p₂ h
   have hcont : ∀ c, (allRankedCandidates p₁).contains c = (allRankedCandidates p₂).contains c := by
     intro c
     rw [Bool.eq_iff_iff, List.contains_iff_mem, List.contains_iff_mem, (Hyb.allRanked_perm h).mem_iff]
-  cases h1 : tidemanTier smith ((allRankedCandidates p₂).length + 3) p₁ with
+  cases h1 : tidemanRunTier smith ((allRankedCandidates p₂).length + 3) p₁ with
   | error e₁ =>
-    cases h2 : tidemanTier smith ((allRankedCandidates p₂).length + 3) p₂ with
+    cases h2 : tidemanRunTier smith ((allRankedCandidates p₂).length + 3) p₂ with
     | error e₂ =>
       rw [h1, h2] at ht
       have : e₁ = e₂ := ht
       rw [this]
     | ok s₂ => rw [h1, h2] at ht; exact ht.elim
   | ok s₁ =>
-    cases h2 : tidemanTier smith ((allRankedCandidates p₂).length + 3) p₂ with
+    cases h2 : tidemanRunTier smith ((allRankedCandidates p₂).length + 3) p₂ with
     | error e₂ => rw [h1, h2] at ht; exact ht.elim
     | ok s₂ =>
       rw [h1, h2] at ht
@@ -173,5 +241,13 @@ theorem tideman_perm_equiv (smith : Bool) {p₁ p₂ : Profile} (h : p₁.Perm p
     · injection hr with hr; subst hr; rename_i c _ _; exact ⟨[c], rfl⟩
     · cases hr
   · cases hr
+
+/-- **Tideman alternative, any number of seats (`tidemanN`, fix 33df8fe): ballot-order independence** — literally the same
+    result or the same exception, every profile -/
+theorem tidemanN_perm (smith : Bool) {p₁ p₂ : Profile} (h : p₁.Perm p₂) (n : Nat) : tidemanN smith p₁ n = tidemanN smith p₂ n := by
+  unfold tidemanN
+  simp only
+  rw [(Hyb.allRanked_perm h).length_eq]
+  exact Hyb.tidemanLoop_perm smith _ _ p₁ p₂ h _ _ (Hyb.allRanked_perm h) _ _
 
 end VL.Perm
